@@ -64,3 +64,12 @@ package filter
 //@   ensures [own-tube]  !skipped(f, t, q) && result == nil && !((len(f.target.Seq) - t + q) % f.tubeOffset < f.maxError) ==> f.tubes[((len(f.target.Seq) - t + q) / f.tubeOffset) % len(f.tubes)].QHi == q
 //@   ensures [neighbour] !skipped(f, t, q) && result == nil && (len(f.target.Seq) - t + q) % f.tubeOffset < f.maxError ==> f.tubes[((len(f.target.Seq) - t + q) / f.tubeOffset == 0 ? len(f.tubes) - 1 : (len(f.target.Seq) - t + q) / f.tubeOffset - 1) % len(f.tubes)].QHi == q
 //@   assigns f.tubes[*], emittedHits(f), fresh
+
+// tubeEnd retires the tube of diagonal index q (the one the last target position meets at query q-1): its run is
+// reported exactly when it reached the threshold, and its count is cleared.
+//@ func (*Filter).tubeEnd
+//@   property C14
+//@   requires f != nil && f.target != nil && len(f.tubes) > 0 && len(f.tubes) == cap(f.tubes) && f.tubeOffset > 0 && q >= 0 && len(f.target.Seq) > 0
+//@   ensures [reports] result == nil ==> emittedHits(f) == old(emittedHits(f)) + (old(f.tubes[(q / f.tubeOffset) % len(f.tubes)].Count) >= f.minKmersPerHit ? 1 : 0)
+//@   ensures [cleared] result == nil ==> f.tubes[(q / f.tubeOffset) % len(f.tubes)].Count == 0
+//@   assigns f.tubes[*], emittedHits(f), fresh
